@@ -309,7 +309,14 @@ func execC20(x *Ctx, sc *wire.Scenario) *wire.Result {
 		if lastW != nil && allFired {
 			// the same frame of the undisturbed run must be fine itself (else it is C04's finding)
 			refW := waitAfter(ref, lastW.Tokens)
-			if refW != nil && refW.Kind == "main" && refW.Line == lastW.Line {
+			// (a reference frame whose input area starts on the top row vouches for nothing: there the terminal
+			// itself stops a cursor that is sent one row too high, which is how a display defect that has nothing
+			// to do with the disturbance stays hidden until a Printf has pushed the prompt down)
+			refAtTop := refW != nil && refW.Screen != nil && refW.AnchorAbsRow-refW.Screen.Scrolled <= 0
+			if refAtTop {
+				res.Counters["skipped:reference_frame_on_the_top_row"]++
+			}
+			if refW != nil && refW.Kind == "main" && refW.Line == lastW.Line && !refAtTop {
 				if r0, _, _ := judgeFrame(refW); r0 == "ok" {
 					rule, sig, msg := judgeFrame(lastW)
 					if rule != "ok" && rule != "" && rule != "unjudged" {
